@@ -349,6 +349,36 @@ pub fn video_frame(cfg: &CfgGene, g: &VGene, idx: usize, first: bool, fc: &mut F
     let size = g.size.max(1);
     let sh = g.shape;
     match cfg.codec % 4 {
+        c @ (0 | 1) if !first && !g.key && g.size % 64 == 21 && g.big == 0 => {
+            // a frame without any start code ("the whole input is one unit"): opaque bytes, or bytes shaped like another
+            // framing - a chain of 4-byte length-prefixed units (what an MP4 demuxer hands out), an ADTS header, an Ogg page
+            let _ = c;
+            let body = filler(5 + (sh as usize % 40), tag, 0);
+            let raw: Vec<u8> = match sh % 4 {
+                0 => body.clone(),
+                1 => {
+                    let mut v = (body.len() as u32).to_be_bytes().to_vec();
+                    v.extend_from_slice(&body);
+                    v
+                }
+                2 => {
+                    let (a, b) = body.split_at(body.len() / 2);
+                    let mut v = (a.len() as u32).to_be_bytes().to_vec();
+                    v.extend_from_slice(a);
+                    v.extend_from_slice(&(b.len() as u32).to_be_bytes());
+                    v.extend_from_slice(b);
+                    v
+                }
+                _ => {
+                    let mut v = b"OggS".to_vec();
+                    v.extend_from_slice(&[0xff, 0xf1, 0x4c, 0x80]);
+                    v.extend_from_slice(&body);
+                    v
+                }
+            };
+            let exp = length_prefixed(&[raw.clone()]);
+            (raw, exp)
+        }
         c @ (0 | 1) => {
             let hevc = c == 1;
             let sc = |i: usize| if sh & 32 != 0 { (i + sh as usize) % 2 == 0 } else { sh & 1 != 0 };
@@ -367,13 +397,29 @@ pub fn video_frame(cfg: &CfgGene, g: &VGene, idx: usize, first: bool, fc: &mut F
                 push(if hevc { h265t::SEI } else { h264t::SEI }, 5 + (sh as u16 % 7), 2, 0);
             }
             if with_cfg {
-                if hevc {
-                    push(h265t::VPS, 4 + (sh as u16 % 9), dict(2, 1), 0);
-                    push(h265t::SPS, 14 + (sh as u16 % 11), dict(0, 2), 0);
-                    push(h265t::PPS, 2 + (sh as u16 % 3), dict(1, 0), 0);
+                // order / repetition of the parameter sets inside the access unit (all legal; the record must carry the FIRST
+                // set of each type): 0 canonical; 1 reversed order (PPS before SPS [before VPS]); 2 a byte-identical second PPS;
+                // 3 the whole group twice, byte-identical
+                let variant = (g.size / 5) % 5;
+                let mut group: Vec<(u8, u16, u8, u8)> = if hevc {
+                    vec![(h265t::VPS, 4 + (sh as u16 % 9), dict(2, 1), 0), (h265t::SPS, 14 + (sh as u16 % 11), dict(0, 2), 0), (h265t::PPS, 2 + (sh as u16 % 3), dict(1, 0), 0)]
                 } else {
-                    push(h264t::SPS, 3 + (sh as u16 % 13), dict(0, 2), 3);
-                    push(h264t::PPS, 1 + (sh as u16 % 4), dict(1, 0), 3);
+                    vec![(h264t::SPS, 3 + (sh as u16 % 13), dict(0, 2), 3), (h264t::PPS, 1 + (sh as u16 % 4), dict(1, 0), 3)]
+                };
+                if variant == 1 {
+                    group.reverse();
+                }
+                for &(t, l, f, a) in &group {
+                    push(t, l, f, a);
+                }
+                if variant == 2 {
+                    let pps = if hevc { h265t::PPS } else { h264t::PPS };
+                    push(pps, 1, 255, if hevc { 0 } else { 3 });
+                }
+                if variant == 3 {
+                    for &(t, _, _, a) in &group {
+                        push(t, 1, 255, a);
+                    }
                 }
                 if sh & 8 != 0 && first {
                     // repeated, later-differing parameter sets: the FIRST ones must be used
@@ -403,6 +449,10 @@ pub fn video_frame(cfg: &CfgGene, g: &VGene, idx: usize, first: bool, fc: &mut F
                 push(slice_t, size - size / 2, (sh >> 6) + 1, 2);
             } else {
                 push(slice_t, size, sh >> 6, 2);
+            }
+            if sh % 11 == 7 {
+                // filler data after the slices (H.264 type 12, H.265 type 38): 0xFF padding and the trailing bits
+                push(if hevc { 38 } else { 12 }, 3 + (sh as u16 % 40), 254, 0);
             }
             let fr = AnnexBFrame {
                 nals,
@@ -557,7 +607,11 @@ pub fn audio_frame(cfg: &CfgGene, g: &AGene, idx: usize) -> (Vec<u8>, Vec<u8>) {
 
 pub fn lower(c: &ValidCase) -> Lowered {
     let c = &*c.materialised();
-    let cfg = ccfg(&c.cfg);
+    let mut cfg = ccfg(&c.cfg);
+    if let Some(k) = c.fps_mode {
+        // the caller stamps frames as i / fps: the same rate is what it tells the builder
+        cfg.fps = FPS[(k as usize) % FPS.len()];
+    }
     let has_audio = cfg.has_audio();
     let mut fc = FirstCfg::default();
     // ---- video timeline
@@ -582,7 +636,8 @@ pub fn lower(c: &ValidCase) -> Lowered {
             let jit = if nojit { 0 } else { g.jit };
             let ds = secs(dts, jit);
             let ps = if pts_tick != dts {
-                secs(pts_tick, jit)
+                // the presentation time has its own sub-tick phase in half of the cases (two clocks, or two roundings)
+                secs(pts_tick, if g.shape & 0x20 != 0 && !nojit { -jit } else { jit })
             } else if g.shape & 0x20 != 0 && !nojit {
                 // same tick, but not the same f64 (pts and dts computed in two ways by the caller)
                 secs(pts_tick, if jit > 0 { jit - 1 - (g.shape % 7) as i8 } else { jit + 1 + (g.shape % 7) as i8 })
@@ -656,7 +711,12 @@ pub fn lower(c: &ValidCase) -> Lowered {
             }
             prev_jit = jit;
             let t = ticks_exact(s);
-            let (bytes, exp) = audio_frame(&c.cfg, g, i);
+            let (mut bytes, mut exp) = audio_frame(&c.cfg, g, i);
+            if i > 0 && g.dpts == 0 && g.size % 16 == 0 {
+                // the very same packet delivered twice with the same timestamp (legal: audio time is non-decreasing)
+                bytes = adata[i - 1].clone();
+                exp = aexp[i - 1].bytes.clone();
+            }
             adata.push(bytes);
             aexp.push(ExpSample { bytes: exp, key: true, pts: t.tick, dts: t.tick, tie: t.tie, op: 0, pts_secs: s, dts_secs: s });
         }
@@ -1098,6 +1158,17 @@ pub fn valid_case_strategy(maxv: usize, maxa: usize) -> impl Strategy<Value = Va
                         let i = 2 + (rng.next_u32() as usize) % (na - 4);
                         c.audio[i].dpts = da - k;
                         c.audio[i + 1].dpts = da + k;
+                    }
+                }
+                // a capture clock slightly off nominal: every audio delta is the nominal frame duration +1 (or -1) tick, with an
+                // occasional exact one (3 % of the cases)
+                if r % 100 >= 15 && r % 100 < 18 && c.fps_mode.is_none() {
+                    let rate = AAC_RATES[(c.cfg.rate_idx % 13) as usize] as u64;
+                    let nominal = if c.cfg.audio % 8 == 7 { 1800i64 } else { (1024 * 90_000 / rate) as i64 };
+                    let e = if r & 0x100 != 0 { 1i64 } else { -1 };
+                    for (k, g) in c.audio.iter_mut().enumerate() {
+                        g.dpts = (nominal + if k % 7 == 6 { 0 } else { e }).max(1) as u32;
+                        g.jit = 0;
                     }
                 }
                 // dictionary: timestamps whose bytes spell a box type (a byte search for a fourcc must not hit them)
